@@ -112,6 +112,7 @@ func runMPCKKS(c *eng.Ctx, cfg pcfg) {
 			dirtyAny(&pub)
 		}
 		sk, ct := e.sk.CopyNew(), ct0.CopyNew()
+		t.out(&ss, &pub)
 		return []named{{"sk", sk}, {"ct", ct}}, func() (string, error) {
 			err := pr.GenShare(sk, logBound, ct, &ss, &pub)
 			return bigShareString(&ss) + "|" + cvalString(canonPoly(rq, pub.Value)), err
@@ -137,6 +138,7 @@ func runMPCKKS(c *eng.Ctx, cfg pcfg) {
 		default:
 			ins = append(ins, named{"secretShare", &in})
 		}
+		t.out(&out)
 		return ins, func() (string, error) { pr.GetShare(&in, pub, ct, &out); return bigShareString(&out), nil }
 	})
 	// ---- shares to encryption
@@ -161,6 +163,7 @@ func runMPCKKS(c *eng.Ctx, cfg pcfg) {
 		sk, ss := e.sk.CopyNew(), cpBigShare(ss0)
 		crp := multiparty.KeySwitchCRP{Value: cpPoly(crp0.Value)}
 		md := ct0.MetaData.CopyNew()
+		t.out(&out)
 		return []named{{"sk", sk}, {"crs", &crp}, {"metadata", md}, {"secretShare", &ss}}, func() (string, error) {
 			err := pr.GenShare(sk, crp, md, ss, &out)
 			return cvalString(canonPoly(rq, out.Value)), err
@@ -178,6 +181,7 @@ func runMPCKKS(c *eng.Ctx, cfg pcfg) {
 			// (the metadata of the output is the caller's: GetEncryption has no metadata argument)
 			fillResidues(rq, out, rnd)
 		}
+		t.out(out)
 		return []named{{"c0Agg", &agg}, {"crs", &crp}}, func() (string, error) {
 			err := pr.GetEncryption(agg, crp, out)
 			return ctString(rq, out), err
@@ -254,6 +258,7 @@ func runMPCKKS(c *eng.Ctx, cfg pcfg) {
 			}
 			skIn, skOut, ct := e.sk.CopyNew(), v.skOut.CopyNew(), ct0.CopyNew()
 			cr := multiparty.KeySwitchCRP{Value: cpPoly(crp.Value)}
+			t.out(&s)
 			return []named{{"skIn", skIn}, {"skOut", skOut}, {"ct", ct}, {"crs", &cr}}, func() (string, error) {
 				err := pr.GenShare(skIn, skOut, logBound, ct, cr, v.tr, &s)
 				return refreshShareString(rq, rqOut, &s), err
@@ -279,6 +284,7 @@ func runMPCKKS(c *eng.Ctx, cfg pcfg) {
 				ins = []named{{"share1", &a}, {"share2", &b}}
 			}
 			return ins, func() (string, error) {
+				t.out(out)
 				err := pr.AggregateShares(&a, &b, out)
 				// (the metadata of an aggregated share is the caller's business: AggregateShares adds the two polynomials)
 				return cvalString(canonPoly(rq, out.EncToShareShare.Value)) + "|" + cvalString(canonPoly(rqOut, out.ShareToEncShare.Value)), err
@@ -312,6 +318,7 @@ func runMPCKKS(c *eng.Ctx, cfg pcfg) {
 				ins = append(ins, named{"ct", ct})
 			}
 			return ins, func() (string, error) {
+				t.out(out)
 				err := pr.Transform(ct, v.tr, cr, sh, out)
 				return ctString(rqOut, out), err
 			}
@@ -351,6 +358,7 @@ func runMPBGV(c *eng.Ctx, cfg pcfg) {
 			dirtyAny(&pub)
 		}
 		sk, ct := e.sk.CopyNew(), ct0.CopyNew()
+		t.out(&ss, &pub)
 		return []named{{"sk", sk}, {"ct", ct}}, func() (string, error) {
 			pr.GenShare(sk, ct, &ss, &pub)
 			return shareT(&ss) + "|" + cvalString(canonPoly(rq, pub.Value)), nil
@@ -382,6 +390,7 @@ func runMPBGV(c *eng.Ctx, cfg pcfg) {
 		default:
 			ins = append(ins, named{"secretShare", &in})
 		}
+		t.out(&out)
 		return ins, func() (string, error) { pr.GetShare(&in, pub, ct, &out); return shareT(&out), nil }
 	})
 	mkS2E := func(tag string, dirty bool) mpbgv.ShareToEncProtocol {
@@ -404,6 +413,7 @@ func runMPBGV(c *eng.Ctx, cfg pcfg) {
 		}
 		sk, ss := e.sk.CopyNew(), cpShareT(ss0)
 		crp := multiparty.KeySwitchCRP{Value: cpPoly(crp0.Value)}
+		t.out(&out)
 		return []named{{"sk", sk}, {"crp", &crp}, {"secretShare", &ss}}, func() (string, error) {
 			err := pr.GenShare(sk, crp, ss, &out)
 			return cvalString(canonPoly(rq, out.Value)), err
@@ -420,6 +430,7 @@ func runMPBGV(c *eng.Ctx, cfg pcfg) {
 		if pat == "hist-out" {
 			fillResidues(rq, out, rnd)
 		}
+		t.out(out)
 		return []named{{"c0Agg", &agg}, {"crp", &crp}}, func() (string, error) {
 			err := pr.GetEncryption(agg, crp, out)
 			return ctString(rq, out), err
@@ -475,6 +486,7 @@ func runMPBGV(c *eng.Ctx, cfg pcfg) {
 			}
 			skIn, skOut, ct := e.sk.CopyNew(), v.skOut.CopyNew(), ct0.CopyNew()
 			cr := multiparty.KeySwitchCRP{Value: cpPoly(crp.Value)}
+			t.out(&s)
 			return []named{{"skIn", skIn}, {"skOut", skOut}, {"ct", ct}, {"crs", &cr}}, func() (string, error) {
 				err := pr.GenShare(skIn, skOut, ct, cr, v.tr, &s)
 				return refreshShareString(rq, rq, &s), err
@@ -500,6 +512,7 @@ func runMPBGV(c *eng.Ctx, cfg pcfg) {
 				ins = []named{{"share1", &a}, {"share2", &b}}
 			}
 			return ins, func() (string, error) {
+				t.out(out)
 				err := pr.AggregateShares(a, b, out)
 				return cvalString(canonPoly(rq, out.EncToShareShare.Value)) + "|" + cvalString(canonPoly(rq, out.ShareToEncShare.Value)), err
 			}
@@ -527,6 +540,7 @@ func runMPBGV(c *eng.Ctx, cfg pcfg) {
 				ins = append(ins, named{"ct", ct})
 			}
 			return ins, func() (string, error) {
+				t.out(out)
 				err := pr.Transform(ct, v.tr, cr, sh, out)
 				return ctString(rq, out), err
 			}
